@@ -307,7 +307,7 @@ func main() {
 		"amount withdrawn is measured as what leaves the validator contract's balance, rewards paid as what leaves the delegation contract's balance; undelegated is the requested amount of accepted unDelegate transactions (upper bound of the real one)",
 		"C36 delegation half is evaluated as a counter only: paid + re-delegated + sum of getClaimableRewards <= rewards received")
 	r.MinShapes(40)
-	nCases := r.N(400, 4000)
+	nCases := r.N(300, 3000)
 
 	r.Parallel(nCases, func(c *vk.Case) {
 		runHistory(r, c)
